@@ -35,7 +35,7 @@ Definition hostglob_of (e : env) (k : str) : bool := negb (existsb (beq k) (e_ba
 
 Definition rbf := ring_fast stable_order.
 Definition fb (e : env) : str -> outcome btable := full_build (pweight_of e) (canon_of e) (glob_of e) rbf.
-Definition cb (e : env) : list (option def) -> outcome btable := custom_build (canon_of e) (glob_of e) rbf.
+Definition cb (e : env) : option (list (option def)) -> outcome btable := custom_build_ptr (canon_of e) (glob_of e) rbf.
 
 (* ---- observables ---- *)
 Definition tobs := list (str * list (str * list str)).   (* hosts ascending; routes in slice order; services *)
@@ -113,8 +113,8 @@ Inductive sact :=
 Inductive case :=
 (* route.NewTable(text) and lookups on the result *)
 | CBuild (e : env) (text : str) (impl : outcome tobs) (lookups : list (req * outcome lobs))
-(* route.NewTableCustom(defs) and lookups on the result *)
-| CCustom (e : env) (defs : list (option def)) (impl : outcome tobs) (lookups : list (req * outcome lobs))
+(* route.NewTableCustom(defs) and lookups on the result; None = a nil pointer (poll body null) *)
+| CCustom (e : env) (defs : option (list (option def))) (impl : outcome tobs) (lookups : list (req * outcome lobs))
 (* the real watchBackend: texts, deliveries (manual?, text index, observed?), what the real NewTable
    says about every candidate (svc index, man index), route.GetTable() after each observed delivery
    (None = the process died) *)
@@ -140,14 +140,14 @@ Definition text_of (texts : list str) (i : nat) : str := nth i texts [].
 Definition check_case (c : case) : N :=
   match c with
   | CBuild e text impl lookups =>
-      let ds := parse (pweight_of e) text in
+      let ds := scan_parse (pweight_of e) text in
       let in_dom := match ds with Ok l => weight_cmds_exact (canon_of e) (glob_of e) [] l | _ => true end in
       check_build e (fb e text) ds impl lookups in_dom
         (match ds with Ok [] => false | _ => true end)
   | CCustom e defs impl lookups =>
-      let l := known_of defs in
+      let l := known_of (match defs with Some ds => ds | None => [] end) in
       check_build e (cb e defs) (Ok l) impl lookups (weight_cmds_exact (canon_of e) (glob_of e) [] l)
-        (match defs with [] => false | _ => true end)
+        (match defs with Some [] => false | _ => true end)
   | CWatch e texts events cands impl =>
       let evs := map (fun ev => match ev with (man, i, _) =>
                         if man : bool then Watch.Man (text_of texts i) else Watch.Svc (text_of texts i) end) events in
